@@ -864,3 +864,17 @@ canary('c20-component-helper-truncates', 'C20', 'crates/edp_elixir_terms/src/dat
         )
         .ok()?;""", """        let month = small_component(map.get(&OwnedTerm::Atom(Atom::new("month")))?.as_integer()?)?;""", 'no-truncation',
        more=[('crates/edp_elixir_terms/src/date_time.rs', "/// Represents an Elixir Date (`~D[2025-12-25]`).", "fn small_component(value: i64) -> Option<u8> {\n    if value < 0 {\n        return None;\n    }\n    Some(value as u8)\n}\n\n/// Represents an Elixir Date (`~D[2025-12-25]`).")])
+canary('c18-remove-first-name-only', 'C18', 'crates/edp_node/src/registry.rs', "        self.by_name.write().await.retain(|_, p| p != pid);", """        let mut names = self.by_name.write().await;
+        let name = names.iter().find_map(|(name, p)| (p == pid).then(|| name.clone()));
+        if let Some(name) = name {
+            names.remove(&name);
+        }""", 'single-name')
+canary('c18-notice-try-send', 'C18', 'crates/edp_node/src/process.rs', """            let _ = linked_handle
+                .send(Message::Exit {
+                    from: handle.pid.clone(),
+                    reason: reason.clone(),
+                })
+                .await;""", """            let _ = linked_handle.mailbox_sender.try_send(Message::Exit {
+                from: handle.pid.clone(),
+                reason: reason.clone(),
+            });""", 'lossy-delivery')
